@@ -248,6 +248,12 @@ func (ef *Effects) follow(g ssa.Value, v ssa.Value, seen map[ssa.Value]bool, add
 				continue
 			}
 			if ia, ok := x.Addr.(*ssa.IndexAddr); ok {
+				if g2, ok := ia.X.(*ssa.Global); ok && p.InModule(g2.Pkg) {
+					// stored into a package-level table (e.g. an array of word lists): what is later
+					// loaded from that table aliases g; follow the table's element loads
+					ef.followTable(g, g2, seen, addWrite, depth+1)
+					continue
+				}
 				if a, ok := ia.X.(*ssa.Alloc); ok {
 					// element of a local array (the variadic argument array): follow the array's slices
 					for _, ar := range *a.Referrers() {
@@ -448,7 +454,7 @@ func (ef *Effects) followCall(g ssa.Value, c ssa.CallInstruction, v ssa.Value, s
 	if name == "(*sync.Once).Do" {
 		return
 	}
-	if readOnly[name] || strings.HasPrefix(name, "(*testing.") || strings.HasPrefix(name, "testing.") || name == "reflect.DeepEqual" {
+	if isReadOnly(name) || strings.HasPrefix(name, "(*testing.") || strings.HasPrefix(name, "testing.") || name == "reflect.DeepEqual" {
 		return
 	}
 	if name == "io.ReadFull" || name == "io.ReadAtLeast" {
@@ -460,4 +466,32 @@ func (ef *Effects) followCall(g ssa.Value, c ssa.CallInstruction, v ssa.Value, s
 	}
 	// unknown callee: it may write what it is given
 	addWrite(g, c, "referent", "passed to "+name+", which may modify it")
+}
+
+
+// followTable: memory reached through g was stored into an element of package-level table t;
+// every value loaded from an element of t may alias it.
+func (ef *Effects) followTable(g ssa.Value, t *ssa.Global, seen map[ssa.Value]bool, addWrite func(ssa.Value, ssa.Instruction, string, string), depth int) {
+	if depth > 12 {
+		return
+	}
+	refs := t.Referrers()
+	if refs == nil {
+		// globals have no referrer lists: scan the module
+		for _, fn := range ef.P.ModuleFuncs(true) {
+			for _, b := range fn.Blocks {
+				for _, in := range b.Instrs {
+					ia, ok := in.(*ssa.IndexAddr)
+					if !ok || ia.X != ssa.Value(t) {
+						continue
+					}
+					for _, r := range *ia.Referrers() {
+						if ld, ok := r.(*ssa.UnOp); ok && ld.Op == token.MUL && mutableType(ld.Type()) {
+							ef.follow(g, ld, seen, addWrite, depth+1)
+						}
+					}
+				}
+			}
+		}
+	}
 }
